@@ -234,6 +234,88 @@ func (w *World) monitorOrder() {
 	}
 }
 
+// monitorPubrelWire: wire-level view of the exactly-once handshake for
+// sessions without an observable store: every PUBREL the client writes answers
+// a PUBREC the broker sent for that identifier, per connection the PUBRELs go
+// out in PUBREC order, and a retransmitted PUBREL belongs to a PUBREC'd,
+// not yet completed transfer.
+func (w *World) monitorPubrelWire(prop string) {
+	tl, _ := w.wireTimeline()
+	recd := map[uint16]bool{} // PUBREC sent by the broker, PUBCOMP not yet
+	var order []uint16        // PUBREC order
+	for i, e := range w.log {
+		if e.K == "bk-send" && len(e.B) == 4 {
+			id := uint16(e.B[2])<<8 | uint16(e.B[3])
+			switch e.B[0] >> 4 {
+			case tPUBREC:
+				if !recd[id] {
+					recd[id] = true
+					order = append(order, id)
+				}
+			case tPUBCOMP:
+				// completed once the client read it; keep it simple: completion at send
+			}
+		}
+		_ = i
+	}
+	perConn := map[int][]uint16{}
+	for _, x := range tl {
+		if x.p.Type != tPUBREL {
+			continue
+		}
+		if !recd[x.p.ID] {
+			w.Violate(prop, "pubrel-without-pubrec", "c%d: PUBREL %#04x although the broker never sent PUBREC for that identifier", x.conn.id, x.p.ID)
+		}
+		perConn[x.conn.id] = append(perConn[x.conn.id], x.p.ID)
+	}
+	pos := map[uint16]int{}
+	for i, id := range order {
+		pos[id] = i
+	}
+	if w.horizonHit {
+		w.Violate(prop, "no-stabilisation", "execution did not become quiet within %d steps", w.step)
+	}
+	// per connection: the PUBRELs for what was PUBREC'd before it was dialled
+	// (and not completed) go out before any PUBREL for something newer
+	for cid, ids := range perConn {
+		seen := map[uint16]bool{}
+		for _, id := range ids {
+			for _, older := range order[:pos[id]] {
+				if !seen[older] && !w.completedBeforeConn(older, cid) {
+					w.Violate(prop, "pubrel-skipped", "c%d: PUBREL %#04x written although PUBREL %#04x (PUBREC'd earlier, not completed) has not been written on this connection", cid, id, older)
+				}
+			}
+			seen[id] = true
+		}
+	}
+	for cid, ids := range perConn {
+		for k := 1; k < len(ids); k++ {
+			// a repeated PUBREL is tolerated: the retry of a failed write and the
+			// retransmission from the store can both send it on the next connection
+			if ids[k] != ids[k-1] && pos[ids[k]] < pos[ids[k-1]] {
+				w.Violate(prop, "pubrel-order", "c%d: PUBREL %#04x after PUBREL %#04x, against the order of the PUBRECs", cid, ids[k], ids[k-1])
+			}
+		}
+	}
+}
+
+// completedBeforeConn: the client had read PUBCOMP id before it dialled conn.
+func (w *World) completedBeforeConn(id uint16, conn int) bool {
+	sent := false
+	for _, e := range w.log {
+		if e.K == "dial" && e.C == conn {
+			return false
+		}
+		if e.K == "bk-send" && len(e.B) == 4 && e.B[0]>>4 == tPUBCOMP && uint16(e.B[2])<<8|uint16(e.B[3]) == id {
+			sent = true
+		}
+		if sent && e.K == "read" && containsPacket(e.B, encAck(tPUBCOMP, id)) {
+			return true
+		}
+	}
+	return false
+}
+
 // monitorQoS2Out checks C03: once the PUBREL record of n is stored no PUBLISH
 // n goes out until PUBCOMP n was processed; PUBREL n goes out on every
 // accepted connection in between.
